@@ -240,8 +240,47 @@ def _failure_flag(ctx: Context, tree: str, N: Names) -> None:
                 hn = cfg._by_ast.get(id(n))
                 if not hn:
                     continue
+                # a private helper that is only ever called from inside the establishment region IS part of it
+                helper_inside = False
+                if f.name.startswith("_") and not f.name.startswith("__"):
+                    css = [cs for cs in ctx.callgraph.callers_of(f) if cs.kind == "call"]
+                    def _site_inside(cs) -> bool:
+                        at = set()
+                        for test, pol in guards_of(cs.node):
+                            for atom, p in conj_atoms(test, pol):
+                                at.add((norm(atom), p))
+                        return ("self._connectionisNone", True) in at
+                    helper_inside = bool(css) and all(_site_inside(cs) for cs in css)
+                # ... but then the flag may be stored only on the way OUT: a store from which the attempt loop is re-entered marks a connection that is still retrying
+                loops = [l for l in own_nodes(f.node) if isinstance(l, (ast.While, ast.For)) and any(x is n for x in ast.walk(l))]
+                if loops:
+                    stores = [x for x in cfg.nodes if x.ast is not None and x.kind == "stmt" and isinstance(x.ast, ast.Assign) and norm(x.ast.targets[0]) == "self._connect_failed"
+                              and any(y is x.ast for y in ast.walk(n))]
+                    lh = cfg._by_ast.get(id(loops[-1]))
+                    again = []
+                    if lh:
+                        for sn_ in stores:
+                            # tests the store itself stands under hold on the way on (same expression, nothing in between re-binds it before the give-up test)
+                            held = {(norm(getattr(t_, "_orig", t_)), pol_) for t_, pol_ in guards_of(sn_.ast) if any(y is t_ or y is getattr(t_, "_orig", None) for y in ast.walk(n))}
+
+                            def follow_(e_) -> bool:
+                                if e_.kind == "exc":
+                                    return False
+                                a_ = e_.src.ast
+                                if isinstance(a_, ast.If) and e_.kind in ("t", "f"):
+                                    tt = norm(a_.test)
+                                    if (tt, e_.kind != "t") in held:
+                                        return False
+                                return True
+                            r_ = cfg.reachable([e_.dst for e_ in sn_.succ if e_.kind != "exc"], follow=follow_)
+                            if lh[0].id in r_:
+                                again.append(sn_)
+                    rep.ob("C04.R4", fkey(tree, f, "flag-only-when-giving-up"), not again, where(f, again[0].ast if again else n),
+                           "inside the attempt loop the failure flag is stored only on paths that leave the loop" if not again else
+                           f"`{again[0].text()}` is followed by another attempt: while the connection is backing off / retrying it reports closed, the pool forgets it - and the attempt that "
+                           "then succeeds opens a stream nobody owns")
                 outside = []
-                for e in hn[0].pred:
+                for e in ([] if helper_inside else hn[0].pred):
                     src = e.src
                     anchor = src.ast.context_expr if isinstance(src.ast, ast.withitem) else src.ast
                     atoms = set()
